@@ -457,3 +457,63 @@ annotation went to ./o_NA.fasta and a record with other annotations to NA/o_NA.f
 		},
 	})
 }
+
+func init() {
+	register(&Rule{
+		ID: "SD", Props: []string{"C16"}, Min: 1,
+		Doc: `"the discarded-records file receives exactly the complement": the complement of everything is nothing, and a file that is asked for is written. In pkg/obitools/obigrep the function that
+divides the records between the output and the file of --save-discarded (it calls DivideOn) does not make the writing of that file depend on the existence of a criterion alone: it holds a
+test that names both the absence of a predicate (== nil) and CLISaveDiscardedSequences(), so that the file is written (empty) in that case. Left untouched, the file kept the records of an
+earlier run.`,
+		Run: func(c *Ctx, s *Sink) {
+			c.EachFunc([]string{"pkg/obitools/obigrep"}, func(p *packages.Package, fd *ast.FuncDecl) {
+				info := p.TypesInfo
+				divides := false
+				ast.Inspect(fd.Body, func(n ast.Node) bool {
+					if call, ok := n.(*ast.CallExpr); ok {
+						if fn := callee(info, call); fn != nil && fn.Name() == "DivideOn" {
+							divides = true
+						}
+					}
+					return true
+				})
+				if !divides {
+					return
+				}
+				key := funcName(p, fd) + ":discarded-file-written-without-criterion"
+				ok := false
+				ast.Inspect(fd.Body, func(n ast.Node) bool {
+					is, isIf := n.(*ast.IfStmt)
+					if !isIf {
+						return true
+					}
+					nilTest, save := false, false
+					ast.Inspect(is.Cond, func(m ast.Node) bool {
+						switch y := m.(type) {
+						case *ast.BinaryExpr:
+							if y.Op == token.EQL {
+								if id, isID := ast.Unparen(y.Y).(*ast.Ident); isID && id.Name == "nil" {
+									nilTest = true
+								}
+							}
+						case *ast.CallExpr:
+							if fn := callee(info, y); fn != nil && fn.Name() == "CLISaveDiscardedSequences" {
+								save = true
+							}
+						}
+						return true
+					})
+					if nilTest && save {
+						ok = true
+					}
+					return true
+				})
+				if ok {
+					s.Pass(nil, key, fd.Pos(), "without criterion the file of the discarded records is still written")
+				} else {
+					s.Fail(nil, key, fd.Pos(), "the file of --save-discarded is only written when some criterion is given: obigrep --save-discarded d.fasta without criterion leaves d.fasta as it was — the records an earlier run discarded are still in it")
+				}
+			})
+		},
+	})
+}
